@@ -171,6 +171,46 @@ def check_arith(run, repo):
         want = V(Tup([V(Int(it.ext(res, 32))), V(car)]))
         ok = h.expect('shift_c ' + tname, fi, B, it, val, want, 'Shift_C(value, %s, amount, carry_in) for every amount' % tname, returned=ret)
         run.instance('C17-A', 'shift_c ' + tname, obligations=512, ok=ok, sample={'helper': 'shift_c', 'type': tname})
+    # ---- Shift (the carry-less wrapper) and the carry-less primitives: same tables, first component -------------------------
+    for tname, kind in (('LSL', 'lsl'), ('LSR', 'lsr'), ('ASR', 'asr'), ('ROR', 'ror'), ('RRX', None)):
+        def mk(B, it, tname=tname):
+            amt = sym_int(B, 'amount', 8) if tname != 'RRX' else it.const(1)
+            return [sym_int(B, 'value', 32), it.const(32), ('enum', 'SRType', tname), amt, sym_int(B, 'carry', 1)]
+        B, it, fi, args, val, ret = h.call(SH, 'shift', mk)
+        x, amt, cin = args[0].bits, args[3], args[4].bits[0]
+        if kind is None:
+            res = Int(list(x[1:]) + [cin])
+        else:
+            res = Int(list(x))
+            for k in range(1, 256):
+                r, _ = shifted(kind, x, k)
+                res = it.i_ite(it.i_eq(amt, it.const(k)), Int(r), res)
+        ok = h.expect('shift ' + tname, fi, B, it, val, V(Int(it.ext(res, 32))), 'Shift(value, %s, amount, carry_in) for every amount' % tname, returned=ret)
+        run.instance('C17-A', 'shift ' + tname, obligations=256, ok=ok, sample={'helper': 'shift', 'type': tname})
+    for fname, kind in (('lsl', 'lsl'), ('lsr', 'lsr'), ('asr', 'asr'), ('ror', 'ror')):
+        def mk(B, it):
+            sh = sym_int(B, 'shift', 8)       # selector variables above the data variables
+            return [sym_int(B, 'x', 32), it.const(32), sh]
+        B, it, fi, args, val, ret = h.call(SH, fname, mk)
+        x, sh = args[0].bits, args[2]
+        res = Int(list(x))
+        for k in range(1, 256):
+            r, _ = shifted(kind, x, k)
+            res = it.i_ite(it.i_eq(sh, it.const(k)), Int(r), res)
+        ok = h.expect(fname, fi, B, it, val, V(Int(it.ext(res, 32))), '%s(x, shift) for every shift 0..255' % fname.upper(), returned=ret)
+        run.instance('C17-A', fname, obligations=256, ok=ok, sample={'helper': fname})
+    B, it, fi, args, val, ret = h.call(SH, 'rrx', lambda B, it: [sym_int(B, 'x', 32), it.const(32), sym_int(B, 'c', 1)])
+    ok = h.expect('rrx', fi, B, it, val, V(Int(list(args[0].bits[1:]) + [args[2].bits[0]])), 'RRX(x, carry_in)', returned=ret)
+    run.instance('C17-A', 'rrx', obligations=1, ok=ok, sample={'helper': 'rrx'})
+    for fname, cfun in (('arm_expand_imm', 'arm_expand_imm_c'), ('thumb_expand_imm', 'thumb_expand_imm_c')):
+        # the carry-less forms equal the first component of the _c forms (compared by interpreting both)
+        B, it, fi, args, val, ret = h.call(SH, fname, lambda B, it: [sym_int(B, 'imm12', 12)])
+        it2 = Interp(repo, B, P())
+        rets2 = it2.run_function(repo.func(SH, cfun), [V(args[0]), V(sym_int(B, 'c', 1))])
+        v2 = Value(it2.coalesce([(B.AND(c, cc), p) for c, v, s in rets2 for cc, p in v.cases]))
+        p2 = v2.single()
+        ok = isinstance(p2, Tup) and h.expect(fname, fi, B, it, val, p2.items[0], '%s(imm12) = %s(imm12, c)[0]' % (fname, cfun), returned=ret)
+        run.instance('C17-A', fname, obligations=4096, ok=bool(ok), sample={'helper': fname})
     # ---- ARMExpandImm_C / ThumbExpandImm_C ---------------------------------------------------------------------------
     def mk(B, it):
         return [sym_int(B, 'imm12', 12), sym_int(B, 'c', 1)]
